@@ -67,7 +67,7 @@ def make_launcher(rp, scratch):
     return lc
 
 
-def size_real(rp, lc, sess, label, schema, pd_args, smt_env, rcfg=None):
+def size_real(rp, lc, sess, label, schema, pd_args, smt_env, rcfg=None, pid='pilot.0000', keep=None):
     import tempfile
     try:
         # a launch bulk hands ONE resource config object to _prepare_pilot for all its pilots
@@ -80,7 +80,7 @@ def size_real(rp, lc, sess, label, schema, pd_args, smt_env, rcfg=None):
     for ma in rcfg.mandatory_args:
         if pd.get(ma) is None:
             pd[ma] = 'verif'
-    pilot = {'uid': 'pilot.0000', 'description': pd.as_dict()}
+    pilot = {'uid': pid, 'description': pd.as_dict()}
     old = os.environ.pop('RADICAL_SMT', None)
     if smt_env:
         os.environ['RADICAL_SMT'] = str(smt_env)
@@ -88,6 +88,12 @@ def size_real(rp, lc, sess, label, schema, pd_args, smt_env, rcfg=None):
     try:
         lc._prepare_pilot(label, rcfg, pilot, {}, 'tar')
         jd, ac = pilot['jd_dict'], pilot['cfg']
+        if keep is not None:
+            # the file with the agent's configuration that is staged for this pilot later on (after the whole bulk
+            # was prepared): remembered together with what this pilot's agent has to be told
+            src = [sd['source'] for sd in pilot.get('sds', []) if str(sd.get('target', '')).endswith('/agent_0.cfg')]
+            keep.append({'pid': pid, 'file': src[0] if src else None,
+                         'told': {'pid': pid, 'nodes': ac['nodes'], 'cores': ac['cores'], 'gpus': ac['gpus']}})
         return {'node_count': jd.node_count, 'total_cpu_count': jd.total_cpu_count,
                 'total_gpu_count': jd.total_gpu_count, 'processes_per_host': jd.processes_per_host,
                 'nodes': ac['nodes'], 'backup_nodes': ac['backup_nodes'], 'cores': ac['cores'],
@@ -100,7 +106,7 @@ def size_real(rp, lc, sess, label, schema, pd_args, smt_env, rcfg=None):
         if old is not None:
             os.environ['RADICAL_SMT'] = old
         for f in set(os.listdir(tempfile.gettempdir())) - before:
-            if f.startswith('rp.agent_cfg.'):
+            if f.startswith('rp.agent_cfg.') and keep is None:
                 try: os.unlink(os.path.join(tempfile.gettempdir(), f))
                 except OSError: pass
 
@@ -301,6 +307,7 @@ def run(ctx):
         except Exception:
             bulk_rcfg = None
         bulk = []
+        staged = []
         for _ in range(nsz):
             smt_env = rng.choice([0, 0, 0, 2, 4]) if r['cpn'] else 0
             smt = smt_env or r['smt']
@@ -321,7 +328,7 @@ def run(ctx):
                     dist['gpus_on_platform_without'] = dist.get('gpus_on_platform_without', 0) + 1
                 dist['by_cores'] += 1
             if smt_env: dist['smt_env'] += 1
-            res = size_real(rp, lc, sess, r['label'], r['schema'], pdd, smt_env, rcfg=bulk_rcfg)
+            res = size_real(rp, lc, sess, r['label'], r['schema'], pdd, smt_env, rcfg=bulk_rcfg, pid='pilot.%04d' % len(bulk), keep=staged)
             op = {'op': 'size', 'cpn': r['cpn'], 'gpn': r['gpn'], 'smt': smt,
                   'bc': len(r['blockedCores']), 'bg': len(r['blockedGpus']),
                   'nodes': pdd.get('nodes', 0), 'cores': pdd.get('cores', 0) if 'nodes' not in pdd else 1,
@@ -338,6 +345,26 @@ def run(ctx):
                                           'pd': pdd, 'smt_env': smt_env, 'earlier_pilots_of_the_bulk': list(bulk)},
                          observed=res)
             bulk.append([pdd, smt_env])
+        # the files are staged once the whole bulk is prepared (_start_pilot_bulk): what each pilot's file says then
+        bad_file = None
+        for e in staged:
+            try:
+                got = ru.read_json(e['file']) if e['file'] else None
+            except Exception as ex:
+                got = {'unreadable': repr(ex)}
+            seen = None if got is None else {k: got.get(k) for k in ('pid', 'nodes', 'cores', 'gpus')}
+            if seen != e['told'] and bad_file is None:
+                bad_file = (e, seen)
+        for e in staged:
+            try:
+                if e['file']: os.unlink(e['file'])
+            except OSError: pass
+        if bad_file:
+            ctx.fail('agent-config-file-tells-another-pilots-figures',
+                     'bulk of %d pilots on %s: the file staged as agent_0.cfg for %s says %s, that pilot was sized %s'
+                     % (len(staged), r['label'], bad_file[0]['pid'], bad_file[1], bad_file[0]['told']),
+                     {'kind': 'size', 'label': r['label'], 'schema': r['schema'], 'pd': bulk[-1][0], 'smt_env': bulk[-1][1],
+                      'earlier_pilots_of_the_bulk': list(bulk[:-1])})
     ctx.sample({'op': ops[0], 'real_prepare_pilot': impl[0]}, limit=1)
     ctx.sample({'op': ops[-1], 'real_prepare_pilot': impl[-1]}, limit=2)
     ctx.extra['distribution'] = dist
@@ -375,10 +402,21 @@ def replay(ctx, data):
         rows = [r for r in translate.resource_rows(common.SRC) if r['label'] == i['label'] and r['schema'] == i['schema']]
         lc = make_launcher(rp, ctx.scratch)
         rcfg = sess.get_resource_config(i['label'], i['schema'] or None)
-        for pd0, smt0 in i.get('earlier_pilots_of_the_bulk', []):
-            size_real(rp, lc, sess, i['label'], i['schema'], pd0, smt0, rcfg=rcfg)
-        res = size_real(rp, lc, sess, i['label'], i['schema'], i['pd'], i['smt_env'], rcfg=rcfg)
+        import radical.utils as ru
+        staged = []
+        for k, (pd0, smt0) in enumerate(i.get('earlier_pilots_of_the_bulk', [])):
+            size_real(rp, lc, sess, i['label'], i['schema'], pd0, smt0, rcfg=rcfg, pid='pilot.%04d' % k, keep=staged)
+        res = size_real(rp, lc, sess, i['label'], i['schema'], i['pd'], i['smt_env'], rcfg=rcfg, pid='pilot.%04d' % len(staged), keep=staged)
         bad = monitor_size(rows[0], i['pd'], i['smt_env'] or rows[0]['smt'], res)
         print('observed:', res, bad)
-        return not bad
+        ok = not bad
+        for e in staged:
+            got = ru.read_json(e['file']) if e['file'] and os.path.isfile(e['file']) else None
+            seen = None if got is None else {k: got.get(k) for k in ('pid', 'nodes', 'cores', 'gpus')}
+            if seen != e['told']:
+                print('file staged for', e['pid'], 'says', seen, '- the pilot was sized', e['told']); ok = False
+        for e in staged:
+            try: os.unlink(e['file'])
+            except Exception: pass
+        return ok
     return False
